@@ -13,5 +13,9 @@ for pid in sys.argv[1:]:
     if prev:
         hint = 'This is a later round: earlier changes already touched ' + '; '.join(f'({i + 1}) {p}' for i, p in enumerate(prev)) + '. Pick a DIFFERENT function and mechanism.\n\n'
         t = t.replace('Deliverables in', hint + 'Deliverables in', 1)
+    kf = json.load(open(os.path.join(HERE, '..', 'known_findings.json')))['findings']
+    known = [f"{f['id']} ({f['status']}): {f['what'][:160]}" for f in kf if f.get('property') == pid]
+    if known:
+        t = t.replace('Deliverables in', 'Already known about the unmodified code for this property (do not report these again as side observations; new inputs only): ' + ' | '.join(known) + '\n\n' + 'Deliverables in', 1)
     open(f'/tmp/prompt_{pid}.txt', 'w').write(t)
     print(pid, len(prev), 'earlier changes')
